@@ -2,6 +2,7 @@ import OptunaVerif.Generated.HvMethods
 import OptunaVerif.Generated.HvShapes
 import OptunaVerif.Lemmas.HvExpected
 import OptunaVerif.Lemmas.HsspIR
+import OptunaVerif.Lemmas.RankIR
 set_option linter.unusedSimpArgs false
 namespace OptunaVerif.C15Gen
 open OptunaVerif OptunaVerif.Hypervolume OptunaVerif.HvIR
@@ -339,5 +340,200 @@ theorem gen_solve_on_unique_eq_partial (U : List Pt) (labels : List Nat) (k : Na
         have hcomp : ((toCand fun j => labels.getD j 0) ∘ fun (x : Pt × Nat) => ((x.1, x.2, vol r x.1) : Trip)) =
             (fun x => toCand (fun j => labels.getD j 0) (x.1, x.2, vol r x.1)) := rfl
         rw [hcomp, hz]
+
+/-! ## the two rank functions of `optuna/study/_multi_objective.py` (interpreter of the generated statement lists, `Model/RankIR.lean`) -/
+
+namespace RankLoop
+open OptunaVerif.RankIR
+
+/-! ## the `while` loop of `_calculate_nondomination_rank` -/
+
+/-- the loop statement of the generated body -/
+def calcLoop : Option (RE × List Simple) :=
+  Generated.RankMethods.calcBody.findSome? (fun st => match st with | .whileS c b => some (c, b) | _ => none)
+
+/-- the variables of `_calculate_nondomination_rank` at the loop -/
+def loopEnv (d : Nat) (S : List Pt) (nb' : Int) (nU : Nat) (inv : List Int) (st : PeelSt) : Env :=
+  [("loss_values", .mat d S), ("n_below", .int nb'), ("n_trials", .int S.length), ("n_objectives", .int d),
+   ("unique_lexsorted_loss_values", .mat d st.arr), ("order_inv", .ints inv), ("n_unique", .int nU), ("ranks", .ints st.ranks),
+   ("rank", .int st.rank), ("indices", .ints st.indices)]
+
+theorem calcLoop_some : ∃ c b, calcLoop = some (c, b) := ⟨_, _, rfl⟩
+
+def theC : RE := (calcLoop.getD (.none_, [])).1
+def theB : List Simple := (calcLoop.getD (.none_, [])).2
+
+theorem gen_calculate_rank_eq_loop_step (front : Nat → List Pt → List Pt) (d : Nat) (S : List Pt) (nb' : Int) (nU : Nat) (inv : List Int) :
+    ∀ fuel (st : PeelSt) (x : RV), ∃ x',
+      loopW front noCalc theC theB fuel (loopEnv d S nb' nU inv st ++ [("on_front", x)]) =
+        loopEnv d S nb' nU inv (peelRef front d nU nb' fuel st) ++ [("on_front", x')] := by
+  intro fuel
+  induction fuel with
+  | zero => intro st x; exact ⟨x, rfl⟩
+  | succ f ih =>
+    intro st x
+    simp only [loopW, peelRef]
+    have hc : theC.eval front noCalc (loopEnv d S nb' nU inv st ++ [("on_front", x)]) = .bool (decide ((nU : Int) - (st.indices.length : Int) < nb')) := by
+      simp [theC, calcLoop, Generated.RankMethods.calcBody, loopEnv, RE.eval, rget_cons, RV.lenV, RV.cmpV, Cmp.eval]
+    rw [hc]
+    by_cases h : (nU : Int) - (st.indices.length : Int) < nb'
+    · rw [if_pos (by simp [h]), if_pos h]
+      have hb : execSimples front noCalc theB (loopEnv d S nb' nU inv st ++ [("on_front", x)]) =
+          loopEnv d S nb' nU inv (PeelSt.mk (st.rank + 1) (selMask st.indices ((frontMaskOf front d st.arr).map (fun x => !x)))
+            (selMask st.arr ((frontMaskOf front d st.arr).map (fun x => !x)))
+            (scatterIdx st.ranks (selMask st.indices (frontMaskOf front d st.arr)) st.rank)) ++ [("on_front", .mask (frontMaskOf front d st.arr))] := by
+        simp [theB, calcLoop, Generated.RankMethods.calcBody, loopEnv, execSimples, Simple.exec, RE.eval, rget_cons, rset_cons, rset_nil, RV.selV]
+      rw [hb]
+      exact ih _ _
+    · rw [if_neg (by simp [h]), if_neg h]
+      exact ⟨x, rfl⟩
+
+theorem gen_calculate_rank_eq_loop (front : Nat → List Pt → List Pt) (d : Nat) (S : List Pt) (nb' : Int) (nU : Nat) (inv : List Int) (fuel : Nat) (st : PeelSt) :
+    ∃ tl, loopW front noCalc theC theB fuel (loopEnv d S nb' nU inv st) = loopEnv d S nb' nU inv (peelRef front d nU nb' fuel st) ++ tl := by
+  cases fuel with
+  | zero => exact ⟨[], by simp [loopW, peelRef]⟩
+  | succ f =>
+    simp only [loopW, peelRef]
+    have hc : theC.eval front noCalc (loopEnv d S nb' nU inv st) = .bool (decide ((nU : Int) - (st.indices.length : Int) < nb')) := by
+      simp [theC, calcLoop, Generated.RankMethods.calcBody, loopEnv, RE.eval, rget_cons, RV.lenV, RV.cmpV, Cmp.eval]
+    rw [hc]
+    by_cases h : (nU : Int) - (st.indices.length : Int) < nb'
+    · rw [if_pos (by simp [h]), if_pos h]
+      have hb : execSimples front noCalc theB (loopEnv d S nb' nU inv st) =
+          loopEnv d S nb' nU inv (PeelSt.mk (st.rank + 1) (selMask st.indices ((frontMaskOf front d st.arr).map (fun x => !x)))
+            (selMask st.arr ((frontMaskOf front d st.arr).map (fun x => !x)))
+            (scatterIdx st.ranks (selMask st.indices (frontMaskOf front d st.arr)) st.rank)) ++ [("on_front", .mask (frontMaskOf front d st.arr))] := by
+        simp [theB, calcLoop, Generated.RankMethods.calcBody, loopEnv, execSimples, Simple.exec, RE.eval, rget_cons, rset_cons, rset_nil, RV.selV]
+      rw [hb]
+      obtain ⟨x', hx⟩ := gen_calculate_rank_eq_loop_step front d S nb' nU inv f _ (.mask (frontMaskOf front d st.arr))
+      exact ⟨_, hx⟩
+    · rw [if_neg (by simp [h]), if_neg h]
+      exact ⟨[], by simp⟩
+
+/-- what follows the prefix of straight-line statements: the loop, the last scatter write, the return -/
+def calcTail : List Stmt := Generated.RankMethods.calcBody.drop 11
+
+theorem calcTail_eq : calcTail = [.whileS theC theB, .s (.setIdx "ranks" (.var "indices") (.var "rank")), .ret (.take (.var "ranks") (.var "order_inv"))] := rfl
+
+theorem run_calcTail (front : Nat → List Pt → List Pt) (d : Nat) (S : List Pt) (nb' : Int) (nU : Nat) (inv : List Int) (fuel : Nat) (st : PeelSt) :
+    run front noCalc fuel calcTail (loopEnv d S nb' nU inv st) =
+      .ints (inv.map (fun j => (scatterIdx (peelRef front d nU nb' fuel st).ranks (peelRef front d nU nb' fuel st).indices
+        (peelRef front d nU nb' fuel st).rank).getD j.toNat 0)) := by
+  rw [calcTail_eq]
+  obtain ⟨tl, htl⟩ := gen_calculate_rank_eq_loop front d S nb' nU inv fuel st
+  simp only [run, htl]
+  simp [loopEnv, Simple.exec, RE.eval, rget_cons, rset_cons]
+
+
+
+end RankLoop
+
+open OptunaVerif.RankIR RankLoop in
+open OptunaVerif.Generated.RankMethods (calcBody fastBody) in
+/-- **gen_calculate_rank_eq** — `_calculate_nondomination_rank` as written today, for EVERY array (no rows, duplicates, any number of
+columns), every `n_below` (None, zero, negative, larger than the array), every `_is_pareto_front` (`front`) and every loop bound: the value the
+interpreter of the generated body returns is the flag-free reference `calcRef` (all zeros in the trivial case; the position among the sorted
+distinct values for one objective; else unique rows, clipped `n_below`, the peeling loop with its scatter writes and its `n_below` exit, the
+last rank for what is left, every row reading the rank of its unique row). -/
+theorem gen_calculate_rank_eq (front : Nat → List Pt → List Pt) (fuel d : Nat) (S : List Pt) (nb : Option Int) :
+    calcGen Generated.RankMethods.prog front fuel d S (nbRV nb) = .ints (calcRef front fuel d S nb) := by
+  unfold calcGen calcRef
+  have h0 : RE.eval front noCalc [("loss_values", .mat d S), ("n_below", nbRV nb)]
+      (.or (.cmp .eq (.len (.var "loss_values")) (.int 0)) (.and (.isNotNone (.var "n_below")) (.cmp .le (.var "n_below") (.int 0)))) =
+      .bool (Rank.trivialCase S nb) := by
+    have hk : ∀ k : Nat, (((k : Int) + 1) == 0) = false := fun k => by
+      have : ((k : Int) + 1) ≠ 0 := by omega
+      simpa using this
+    cases nb with
+    | none => cases S <;> simp [RE.eval, rget_cons, RV.lenV, RV.cmpV, Cmp.eval, nbRV, Rank.trivialCase, hk]
+    | some n => cases S <;> simp [RE.eval, rget_cons, RV.lenV, RV.cmpV, Cmp.eval, nbRV, Rank.trivialCase, hk]
+  cases ht : Rank.trivialCase S nb with
+  | true =>
+    simp only [Generated.RankMethods.prog, calcBody, run, h0, ht]
+    simp [RE.eval, execSimples, rget_cons, RV.lenV]
+  | false =>
+    by_cases hd : d = 1
+    · subst hd
+      simp only [Generated.RankMethods.prog, calcBody, run, h0, ht]
+      simp [Simple.exec, RE.eval, rget_cons, rset_cons, rset_nil, RV.lenV, RV.cmpV, Cmp.eval, execSimples]
+    · have hd' : ((d : Int) == 1) = false := by
+        have : (d : Int) ≠ 1 := by omega
+        simpa using this
+      have hpre : run front noCalc fuel Generated.RankMethods.prog.calcBody [("loss_values", .mat d S), ("n_below", nbRV nb)] =
+          run front noCalc fuel calcTail (loopEnv d S (nbClip nb (uniqueLex S).length) (uniqueLex S).length (uniqueInvOf S)
+            (PeelSt.mk 0 ((List.range (uniqueLex S).length).map Int.ofNat) (uniqueLex S) (List.replicate (uniqueLex S).length 0))) := by
+        have hn : ∀ n, nb = some n → ¬ n = 0 := by
+          intro n e h; subst e; subst h; simp [Rank.trivialCase] at ht
+        cases nb with
+        | none =>
+          simp only [Generated.RankMethods.prog, calcBody, run, h0, ht]
+          simp [calcBody, calcTail, run, hd', Simple.exec, RE.eval, rget_cons, rset_cons, rset_nil, RV.lenV, RV.cmpV, Cmp.eval,
+            execSimples, loopEnv, nbClip, nbOr, nbRV, RV.orElseV]
+        | some n =>
+          simp only [Generated.RankMethods.prog, calcBody, run, h0, ht]
+          simp [calcBody, calcTail, run, hd', Simple.exec, RE.eval, rget_cons, rset_cons, rset_nil, RV.lenV, RV.cmpV, Cmp.eval,
+            execSimples, loopEnv, nbClip, nbOr, nbRV, RV.orElseV, hn n rfl]
+      rw [hpre, run_calcTail]
+      simp only [hd, Bool.false_eq_true, if_false]
+
+open OptunaVerif.RankIR in
+open OptunaVerif.Generated.RankMethods (calcBody fastBody) in
+example : calcGen Generated.RankMethods.prog (fun d l => frontSorted id d l) 5 2 [[0, 1], [1, 0], [1, 1], [1, 1], [2, 2], [3, 3]] (.int 2) =
+    .ints [0, 0, 1, 1, 1, 1] := by decide
+
+open OptunaVerif.RankIR in
+open OptunaVerif.Generated.RankMethods (calcBody fastBody) in
+/-- **gen_fast_rank_eq** — `_fast_non_domination_rank` as written today, the callee `_calculate_nondomination_rank(·, n_below=·)` being any
+function `c` (instantiated with the interpreter of the generated callee below), for EVERY array, penalty vector (None, wrong length, NaN
+entries) and `n_below`: the empty result, the AssertionError for a negative `n_below`, the unconstrained call, the ValueError for the length
+mismatch, and the three scatter writes — feasible rows by domination, infeasible rows AFTER every feasible rank by the penalty alone, rows
+without penalty information AFTER every rank given so far — with `n_below` reduced by the sizes of the groups already ranked. -/
+theorem gen_fast_rank_eq (callee : Nat → List Pt → RV → RV) (c : Nat → List Pt → Int → List Int)
+    (hc : ∀ d m n, callee d m (.int n) = .ints (c d m n)) (d : Nat) (S : List Pt) (pen : Option (List (Option Int))) (nb : Option Int) :
+    fastGen Generated.RankMethods.prog callee d S (penRV pen) (nbRV nb) = fastRef c d S pen nb := by
+  unfold fastGen fastRef
+  by_cases hS : S.length = 0
+  · simp [Generated.RankMethods.prog, fastBody, run, RE.eval, rget_cons, RV.lenV, RV.cmpV, Cmp.eval, execSimples, hS]
+  · have hS' : ((S.length : Int) == 0) = false := by
+      have : (S.length : Int) ≠ 0 := by omega
+      simpa using this
+    have hnb : RV.orElseV (nbRV nb) (.int (S.length : Int)) = .int (nbOr nb S.length) := by
+      cases nb with
+      | none => rfl
+      | some n => by_cases h : n = 0 <;> simp [nbRV, RV.orElseV, nbOr, h]
+    generalize nbOr nb S.length = N at hnb ⊢
+    cases pen with
+    | none =>
+      by_cases hN : 0 < N
+      · simp [Generated.RankMethods.prog, fastBody, run, RE.eval, rget_cons, rset_cons, rset_nil, Simple.exec, RV.lenV, execSimples, RV.cmpV, Cmp.eval, hS, hS', hnb, hN, penRV, hc]
+      · simp [Generated.RankMethods.prog, fastBody, run, RE.eval, rget_cons, rset_cons, rset_nil, Simple.exec, RV.lenV, execSimples, RV.cmpV, Cmp.eval, hS, hS', hnb, hN, penRV, hc]
+    | some q =>
+      by_cases hN : 0 < N
+      · by_cases hq : q.length = S.length
+        · have hq' : ((q.length : Int) != (S.length : Int)) = false := by simp [hq]
+          simp [hq', Generated.RankMethods.prog, fastBody, run, RE.eval, rget_cons, rset_cons, rset_nil, Simple.exec, RV.lenV, execSimples, RV.cmpV, Cmp.eval, hS, hS', hnb, hN, penRV, hc, hq, RV.selV]
+          split <;> simp_all
+        · have hq' : ((q.length : Int) != (S.length : Int)) = true := by
+            have : (q.length : Int) ≠ (S.length : Int) := by omega
+            simpa using this
+          simp [hq', Generated.RankMethods.prog, fastBody, run, RE.eval, rget_cons, rset_cons, rset_nil, Simple.exec, RV.lenV, execSimples, RV.cmpV, Cmp.eval, hS, hS', hnb, hN, penRV, hc, hq]
+      · simp [Generated.RankMethods.prog, fastBody, run, RE.eval, rget_cons, rset_cons, rset_nil, Simple.exec, RV.lenV, execSimples, RV.cmpV, Cmp.eval, hS, hS', hnb, hN, penRV, hc]
+
+open OptunaVerif.RankIR in
+/-- the callee of `_fast_non_domination_rank` as generated: the interpreter of the generated `_calculate_nondomination_rank`, loop bound `n_unique` -/
+def calcCallee (front : Nat → List Pt → List Pt) : Nat → List Pt → RV → RV :=
+  fun d m nb => calcGen Generated.RankMethods.prog front (uniqueLex m).length d m nb
+
+open OptunaVerif.RankIR in
+/-- **gen_fast_rank_eq_calc** — both generated functions together: `_fast_non_domination_rank` calling the generated
+`_calculate_nondomination_rank` is `fastRef` over `calcRef` -/
+theorem gen_fast_rank_eq_calc (front : Nat → List Pt → List Pt) (d : Nat) (S : List Pt) (pen : Option (List (Option Int))) (nb : Option Int) :
+    fastGen Generated.RankMethods.prog (calcCallee front) d S (penRV pen) (nbRV nb) =
+      fastRef (fun d m n => calcRef front (uniqueLex m).length d m (some n)) d S pen nb :=
+  gen_fast_rank_eq _ _ (fun d m n => gen_calculate_rank_eq front (uniqueLex m).length d m (some n)) d S pen nb
+
+open OptunaVerif.RankIR in
+example : fastGen Generated.RankMethods.prog (calcCallee (fun d l => frontSorted id d l)) 2 [[0, 1], [1, 0], [1, 1], [1, 1], [2, 2], [3, 3]]
+    (.pen [some 0, some 1, none, some (-1), some 2, some 1]) .none_ = .ints [0, 2, 4, 1, 3, 2] := by decide
 
 end OptunaVerif.C15Gen
